@@ -1,3 +1,159 @@
 import TlsModel.Proto
-/- driver stub for C15: replaced when the model exists -/
-def main : IO Unit := Tls.protoMain (fun _ => none)
+import TlsModel.Codec
+import TlsModel.Fmt
+import TlsModel.FmtAid
+import TlsModel.Msgs
+/-
+  Driver for C15.  Formats are named as in `Tls.Msgs.table` (plus `ext:<ctx>`,
+  `extdata:<cls>`, `serverHelloAuto`); values use the text syntax of TlsModel/FmtAid.lean.
+
+    enc  <fmt> <val>        -> ok <hex> | overflow | shape
+    dec  <fmt> <hex>        -> ok <val> <unread> | decode_error
+    lens <fmt> <hex>        -> off:width,off:width,... | - | decode_error
+    show <fmt>              -> <format text> <exact>      names -> table names
+    wf   <fmt>              -> self | tail | no        (self-delimiting / tail-only / ill-formed)
+    fits <fmt> <val>        -> true|false   shape <fmt> <val> -> true|false   len <fmt> <val> -> n
+    w <op> ...              -> Writer primitives, reply: ok <hex> | overflow | tuple_mismatch
+        w add <hex> <x> <n> | w one <hex> <x> | w two .. | w three .. | w four ..
+        w fixseq <hex> <n> <x,x,..> | w varseq <hex> <n> <ll> <x,x,..>
+        w vartuple <hex> <n> <ll> <x,x;x,x;..> | w varbytes <hex> <ll> <hex>
+    p <hex> <op> <op> ...   -> Parser script, replies joined by `|`, stops at the first error
+        get:n fix:n var:ll skip:n fixlist:n:k varlist:n:ll vartuple:n:k:ll start:ll set:n stop at rem idx
+-/
+open Tls Tls.Fmt Tls.Codec
+
+def natList? (s : String) : Option (List Nat) :=
+  if s == "-" then some [] else (s.splitOn ",").mapM (·.toNat?)
+
+def tupleList? (s : String) : Option (List (List Nat)) :=
+  if s == "-" then some [] else (s.splitOn ";").mapM natList?
+
+def wOut : Except WErr Writer → String
+  | .ok w => "ok " ++ hexOut w
+  | .error .overflow => "overflow"
+  | .error .tupleMismatch => "tuple_mismatch"
+
+def pErr : PErr → String
+  | .readPast => "err:readPast"
+  | .notMultiple => "err:notMultiple"
+  | .underOver => "err:underOver"
+  | .zeroDiv => "err:zeroDiv"
+
+def natsOut (l : List Nat) : String := if l.isEmpty then "-" else ",".intercalate (l.map toString)
+
+/-- one step of a Parser script -/
+def pStep (p : Parser) (op : String) : Option (Except PErr (String × Parser)) :=
+  match op.splitOn ":" with
+  | ["get", n] => do
+    let n ← n.toNat?
+    some ((Parser.get p n).map fun (x, p) => ("n" ++ toString x, p))
+  | ["fix", n] => do
+    let n ← n.toNat?
+    some ((Parser.getFixBytes p n).map fun (b, p) => ("b" ++ toHex b, p))
+  | ["var", ll] => do
+    let ll ← ll.toNat?
+    some ((Parser.getVarBytes p ll).map fun (b, p) => ("b" ++ toHex b, p))
+  | ["skip", n] => do
+    let n ← n.toNat?
+    some ((Parser.skipBytes p n).map fun p => ("ok", p))
+  | ["fixlist", n, k] => do
+    let n ← n.toNat?
+    let k ← k.toNat?
+    some ((Parser.getFixList p n k).map fun (l, p) => ("l" ++ natsOut l, p))
+  | ["varlist", n, ll] => do
+    let n ← n.toNat?
+    let ll ← ll.toNat?
+    some ((Parser.getVarList p n ll).map fun (l, p) => ("l" ++ natsOut l, p))
+  | ["vartuple", n, k, ll] => do
+    let n ← n.toNat?
+    let k ← k.toNat?
+    let ll ← ll.toNat?
+    some ((Parser.getVarTupleList p n k ll).map fun (l, p) =>
+      ("t" ++ (if l.isEmpty then "-" else ";".intercalate (l.map natsOut)), p))
+  | ["start", ll] => do
+    let ll ← ll.toNat?
+    some ((Parser.startLengthCheck p ll).map fun p => ("ok", p))
+  | ["set", n] => do
+    let n ← n.toNat?
+    some (.ok ("ok", Parser.setLengthCheck p n))
+  | ["stop"] => some ((Parser.stopLengthCheck p).map fun _ => ("ok", p))
+  | ["at"] => some ((Parser.atLengthCheck p).map fun b => (boolOut b, p))
+  | ["rem"] => some (.ok ("r" ++ toString (Parser.getRemainingLength p), p))
+  | ["idx"] => some (.ok ("i" ++ toString p.index, p))
+  | _ => none
+
+def pRun : Parser → List String → List String → Option String
+  | _, [], acc => some ("|".intercalate acc.reverse)
+  | p, op :: ops, acc =>
+    match pStep p op with
+    | none => none
+    | some (.error e) => some ("|".intercalate (pErr e :: acc).reverse)
+    | some (.ok (s, p)) => pRun p ops (s :: acc)
+
+def fmtOf (name : String) (input : Option Bytes) (v : Option Val) : Option Msgs.Msg :=
+  if name == "serverHelloAuto" then
+    match input, v with
+    | some b, _ => some { fmt := Msgs.serverHelloFor b }
+    | none, some v => some { fmt := Msgs.serverHelloForVal v }
+    | none, none => some { fmt := Msgs.serverHello }
+  else Msgs.lookup name
+
+def handle : List String → Option String
+  | ["enc", name, val] => do
+    let v ← Val.ofString? val
+    let m ← fmtOf name none (some v)
+    match m.encode v with
+    | some b => some ("ok " ++ hexOut b)
+    | none => some (if shape m.fmt 0 v then "overflow" else "shape")
+  | ["dec", name, hex] => do
+    let b ← ofHex hex
+    let m ← fmtOf name (some b) none
+    match m.decode b with
+    | .ok (v, r) => some ("ok " ++ v.render ++ " " ++ toString r.length)
+    | .error _ => some "decode_error"
+  | ["lens", name, hex] => do
+    let b ← ofHex hex
+    let m ← fmtOf name (some b) none
+    match lenFields m.fmt 0 0 b with
+    | some (l, _, _) =>
+      some (if l.isEmpty then "-" else ",".intercalate (l.map fun (o, w) => toString o ++ ":" ++ toString w))
+    | none => some "decode_error"
+  | ["show", name] => do
+    let m ← fmtOf name none none
+    some (m.fmt.render ++ " " ++ boolOut m.exact)
+  | ["names"] => some (",".intercalate (Msgs.table.map (·.1)))
+  | ["wf", name] => do
+    let m ← fmtOf name none none
+    some (if wf false m.fmt then "self" else if wf true m.fmt then "tail" else "no")
+  | ["fits", name, val] => do
+    let v ← Val.ofString? val
+    let m ← fmtOf name none (some v)
+    some (boolOut (fits m.fmt 0 v))
+  | ["shape", name, val] => do
+    let v ← Val.ofString? val
+    let m ← fmtOf name none (some v)
+    some (boolOut (shape m.fmt 0 v))
+  | ["len", name, val] => do
+    let v ← Val.ofString? val
+    let m ← fmtOf name none (some v)
+    some (toString (encLen m.fmt 0 v))
+  | ["w", "add", w, x, n] => do
+    some (wOut (Writer.add (← ofHex w) (← x.toNat?) (← n.toNat?)))
+  | ["w", "one", w, x] => do some (wOut (Writer.addOne (← ofHex w) (← x.toNat?)))
+  | ["w", "two", w, x] => do some (wOut (Writer.addTwo (← ofHex w) (← x.toNat?)))
+  | ["w", "three", w, x] => do some (wOut (Writer.addThree (← ofHex w) (← x.toNat?)))
+  | ["w", "four", w, x] => do some (wOut (Writer.addFour (← ofHex w) (← x.toNat?)))
+  | ["w", "fixseq", w, n, xs] => do
+    some (wOut (Writer.addFixSeq (← ofHex w) (← natList? xs) (← n.toNat?)))
+  | ["w", "varseq", w, n, ll, xs] => do
+    some (wOut (Writer.addVarSeq (← ofHex w) (← natList? xs) (← n.toNat?) (← ll.toNat?)))
+  | ["w", "vartuple", w, n, ll, ts] => do
+    some (wOut (Writer.addVarTupleSeq (← ofHex w) (← tupleList? ts) (← n.toNat?) (← ll.toNat?)))
+  | ["w", "varbytes", w, ll, d] => do
+    some (wOut (Writer.addVarBytes (← ofHex w) (← ofHex d) (← ll.toNat?)))
+  | "p" :: hex :: ops => do
+    let b ← ofHex hex
+    pRun (Parser.new b) ops []
+  | _ => none
+
+def main : IO Unit := protoMain handle
